@@ -35,6 +35,144 @@ func main() {
 	}
 	var muts []mutation
 	pos := func(p token.Pos) string { return fset.Position(p).String() }
+	if os.Getenv("MUTSET") == "2" {
+		muts = set2(f, pos)
+	} else {
+		muts = set1(f, pos)
+	}
+	os.MkdirAll(outdir, 0o755)
+	for i, m := range muts {
+		m.apply()
+		var buf bytes.Buffer
+		if err := printer.Fprint(&buf, fset, f); err == nil {
+			os.WriteFile(filepath.Join(outdir, fmt.Sprintf("%04d.go", i)), buf.Bytes(), 0o644)
+			os.WriteFile(filepath.Join(outdir, fmt.Sprintf("%04d.txt", i)), []byte(m.desc+"\n"), 0o644)
+		}
+		m.undo()
+	}
+	fmt.Println(len(muts), "mutants of", src)
+}
+
+// set2 - second operator set: operand drops in && / ||, forced conditions, deleted else branches and case bodies,
+// removed negations, swapped call arguments, deleted return statements inside nested blocks.
+func set2(f *ast.File, pos func(token.Pos) string) []mutation {
+	var muts []mutation
+	replaceExpr := func(parent ast.Node, old, nw ast.Expr) (func(), func(), bool) {
+		switch p := parent.(type) {
+		case *ast.IfStmt:
+			if p.Cond == old {
+				return func() { p.Cond = nw }, func() { p.Cond = old }, true
+			}
+		case *ast.BinaryExpr:
+			if p.X == old {
+				return func() { p.X = nw }, func() { p.X = old }, true
+			}
+			if p.Y == old {
+				return func() { p.Y = nw }, func() { p.Y = old }, true
+			}
+		case *ast.ParenExpr:
+			if p.X == old {
+				return func() { p.X = nw }, func() { p.X = old }, true
+			}
+		case *ast.UnaryExpr:
+			if p.X == old {
+				return func() { p.X = nw }, func() { p.X = old }, true
+			}
+		case *ast.ForStmt:
+			if p.Cond == old {
+				return func() { p.Cond = nw }, func() { p.Cond = old }, true
+			}
+		case *ast.AssignStmt:
+			for i := range p.Rhs {
+				if p.Rhs[i] == old {
+					i := i
+					return func() { p.Rhs[i] = nw }, func() { p.Rhs[i] = old }, true
+				}
+			}
+		case *ast.ReturnStmt:
+			for i := range p.Results {
+				if p.Results[i] == old {
+					i := i
+					return func() { p.Results[i] = nw }, func() { p.Results[i] = old }, true
+				}
+			}
+		case *ast.CallExpr:
+			for i := range p.Args {
+				if p.Args[i] == old {
+					i := i
+					return func() { p.Args[i] = nw }, func() { p.Args[i] = old }, true
+				}
+			}
+		}
+		return nil, nil, false
+	}
+	var stack []ast.Node
+	depth := 0
+	ast.Inspect(f, func(n ast.Node) bool {
+		if n == nil {
+			if _, ok := stack[len(stack)-1].(*ast.BlockStmt); ok {
+				depth--
+			}
+			stack = stack[:len(stack)-1]
+			return true
+		}
+		var parent ast.Node
+		if len(stack) > 0 {
+			parent = stack[len(stack)-1]
+		}
+		stack = append(stack, n)
+		switch x := n.(type) {
+		case *ast.BlockStmt:
+			depth++
+			if depth >= 2 {
+				for i, st := range x.List {
+					i, st := i, st
+					if _, ok := st.(*ast.ReturnStmt); ok {
+						muts = append(muts, mutation{fmt.Sprintf("%s: delete return", pos(st.Pos())), func() { x.List[i] = &ast.EmptyStmt{Semicolon: st.Pos()} }, func() { x.List[i] = st }})
+					}
+				}
+			}
+		case *ast.BinaryExpr:
+			if x.Op == token.LAND || x.Op == token.LOR {
+				if a, u, ok := replaceExpr(parent, x, x.X); ok {
+					muts = append(muts, mutation{fmt.Sprintf("%s: %s keeps left operand only", pos(x.OpPos), x.Op), a, u})
+				}
+				if a, u, ok := replaceExpr(parent, x, x.Y); ok {
+					muts = append(muts, mutation{fmt.Sprintf("%s: %s keeps right operand only", pos(x.OpPos), x.Op), a, u})
+				}
+			}
+		case *ast.UnaryExpr:
+			if x.Op == token.NOT {
+				if a, u, ok := replaceExpr(parent, x, x.X); ok {
+					muts = append(muts, mutation{fmt.Sprintf("%s: negation removed", pos(x.OpPos)), a, u})
+				}
+			}
+		case *ast.IfStmt:
+			old := x.Cond
+			muts = append(muts, mutation{fmt.Sprintf("%s: if condition -> true", pos(x.If)), func() { x.Cond = ast.NewIdent("true") }, func() { x.Cond = old }})
+			muts = append(muts, mutation{fmt.Sprintf("%s: if condition -> false", pos(x.If)), func() { x.Cond = ast.NewIdent("false") }, func() { x.Cond = old }})
+			if x.Else != nil {
+				oe := x.Else
+				muts = append(muts, mutation{fmt.Sprintf("%s: else branch deleted", pos(x.If)), func() { x.Else = nil }, func() { x.Else = oe }})
+			}
+		case *ast.CaseClause:
+			if len(x.Body) > 0 {
+				ob := x.Body
+				muts = append(muts, mutation{fmt.Sprintf("%s: case body deleted", pos(x.Case)), func() { x.Body = nil }, func() { x.Body = ob }})
+			}
+		case *ast.CallExpr:
+			for i := 0; i+1 < len(x.Args); i++ {
+				i := i
+				muts = append(muts, mutation{fmt.Sprintf("%s: call arguments %d and %d swapped", pos(x.Lparen), i, i+1), func() { x.Args[i], x.Args[i+1] = x.Args[i+1], x.Args[i] }, func() { x.Args[i], x.Args[i+1] = x.Args[i+1], x.Args[i] }})
+			}
+		}
+		return true
+	})
+	return muts
+}
+
+func set1(f *ast.File, pos func(token.Pos) string) []mutation {
+	var muts []mutation
 	ast.Inspect(f, func(n ast.Node) bool {
 		switch x := n.(type) {
 		case *ast.BinaryExpr:
@@ -81,15 +219,5 @@ func main() {
 		}
 		return true
 	})
-	os.MkdirAll(outdir, 0o755)
-	for i, m := range muts {
-		m.apply()
-		var buf bytes.Buffer
-		if err := printer.Fprint(&buf, fset, f); err == nil {
-			os.WriteFile(filepath.Join(outdir, fmt.Sprintf("%04d.go", i)), buf.Bytes(), 0o644)
-			os.WriteFile(filepath.Join(outdir, fmt.Sprintf("%04d.txt", i)), []byte(m.desc+"\n"), 0o644)
-		}
-		m.undo()
-	}
-	fmt.Println(len(muts), "mutants of", src)
+	return muts
 }
